@@ -371,6 +371,10 @@ def run(ctx):
         ctx.sample({"case": case_summary(bycase[r["id"]]), "events": r["nev"], "requests": r["nreq"],
                     "first_events": [[e["k"], e["a"], e["to"], e["w"]] for e in r["trace"]["ev"][:12]],
                     "complete_failures": finals.get(r["id"]), "end_verdict": v})
+    # ---- beyond the listed property: the retry loop of one API request and the rate limiter
+    # (spec/FetchRetry.tla, spec/RateLimit.tla; the fetcher runs above sit on top of MwApi._fetch)
+    from harness import fetchretry
+    fetchretry.check(ctx, quick)
     ctx.assume("the synthetic wiki (harness/synthwiki.py, contract spec/WikiApi.tla) answers like MediaWiki for the request "
                "alphabet sapi.py uses; it speaks legacy query-continue, the only dialect the client continues on",
                "image usage is a page-level attribute (MediaWiki's imagelinks table): a pinned old revision uses the images of its page",
